@@ -11,7 +11,7 @@ use std::panic::{catch_unwind, AssertUnwindSafe};
 use std::rc::Rc;
 use suiron::*;
 
-pub fn props_of(_case: &Value) -> Vec<&'static str> { vec!["C22", "C23"] }
+pub fn props_of(_case: &Value) -> Vec<&'static str> { vec!["C22", "C23", "C05"] }
 
 const TIMEOUT_PREFIX: &str = "Query timed out";
 
@@ -77,6 +77,7 @@ fn replay_with(case: &Value, ctor: &str) -> Vec<Obs> {
     let mut all_ok = true;
     let mut c23_ok = true;
     let mut first_bad = String::new();
+    let mut spent: Vec<(usize, String, Rc<std::cell::RefCell<SolutionNode>>)> = vec![];
     for (ei, ep) in plan.iter().enumerate() {
         let qt = tm_from_json(&ep["query"]);
         let qterms: Vec<Unifiable> = match build(&qt) { Unifiable::SComplex(v) => v, _ => vec![] };
@@ -92,6 +93,8 @@ fn replay_with(case: &Value, ctor: &str) -> Vec<Obs> {
         let q = Rc::new(query.clone());
         let args: Vec<Tm> = match &*q { Goal::ComplexGoal(Unifiable::SComplex(v)) => v[1..].iter().map(project).collect(), _ => vec![] };
         let sn = make_base_node(Rc::clone(&q), &kb);
+        let mut exhausted = false;          // this query has reported "no more" (and its own timer never fired)
+        let mut own_timer_fired = false;
         history.push_str(&format!(" | {} ?- {}:", ctor, qtext));
         for call in ep["calls"].as_array().unwrap() {
             let mode = call["mode"].as_str().unwrap();
@@ -156,6 +159,8 @@ fn replay_with(case: &Value, ctor: &str) -> Vec<Obs> {
                 }
             };
             capture::take();
+            if fire > 0 { own_timer_fired = true; }
+            if ok && !own_timer_fired && (wkind == "none" || (mode == "all" && !wto)) { exhausted = true; }
             history.push_str(&format!(" {}{} -> {}", mode, if fire > 0 { format!("[timer fires before count_rules #{}]", fire) } else { String::new() }, got));
             // (a call during which the query's OWN timer fired is C23's matter, not C22's)
             if constrained && !ok && first_bad.is_empty() {
@@ -164,10 +169,31 @@ fn replay_with(case: &Value, ctor: &str) -> Vec<Obs> {
             }
             if constrained && !ok && !wto && wkind != "timeout" { all_ok = false; }
         }
+        if exhausted { spent.push((ei + 1, qtext.clone(), Rc::clone(&sn))); }
+    }
+    // C05: an exhausted query stays exhausted -- also after everything that happened to LATER queries (answers,
+    // re-asks, timeouts that left the stop flag set): asked again at the end of the history, through solve() and
+    // through next_solution(), it reports "no more" and writes nothing
+    let mut c05_bad: Option<String> = None;
+    for (ep_no, qtext, sn) in &spent {
+        capture::take();
+        let r1 = catch_unwind(AssertUnwindSafe(|| solve(Rc::clone(sn))));
+        let o1 = capture::take();
+        let r2 = catch_unwind(AssertUnwindSafe(|| next_solution(Rc::clone(sn)).is_some()));
+        let o2 = capture::take();
+        let ok1 = matches!(&r1, Ok(t) if t == "No more.") && o1.is_empty();
+        let ok2 = matches!(&r2, Ok(false)) && o2.is_empty();
+        if !(ok1 && ok2) && c05_bad.is_none() {
+            c05_bad = Some(format!("the query of episode {} (?- {}) had reported 'no more'; asked again after the history: solve() -> {:?} (wrote {:?}), next_solution() -> {:?} (wrote {:?})",
+                                   ep_no, qtext, r1.as_ref().map_err(|_| "PANIC"), o1, r2.as_ref().map(|b| if *b { "a solution" } else { "none" }).map_err(|_| "PANIC"), o2));
+        }
     }
     let what = format!("{} ::{}", show_prog(&case["prog"]), history);
     if all_ok { obs.push(Obs::ok("C22", "history")); } else { obs.push(Obs::bad("C22", "history", format!("{} :: {}", first_bad, what))); }
     if c23_ok && all_ok { obs.push(Obs::ok("C23", "reports")); }
     else if !c23_ok { obs.push(Obs::bad("C23", "timeout-report", format!("{} :: {}", first_bad, what))); }
+    if !spent.is_empty() {
+        match c05_bad { None => obs.push(Obs::ok("C05", "re-ask-after-history")), Some(d) => obs.push(Obs::bad("C05", "re-ask-after-history", format!("{} :: {}", d, what))) }
+    }
     obs
 }
